@@ -14,6 +14,36 @@ import (
 // factsAll: facts of the other subsystems (extended as models are added).
 func factsAll() {
 	factsApi()
+	factsCodec()
+}
+
+func factsCodec() {
+	const d = "fractal/protocol"
+	for _, n := range []string{"MsgTypeReserved", "MsgTypeRequestQualities", "MsgTypeReportQualities", "MsgTypeRequestProof",
+		"MsgTypeReportProof", "MsgTypeRequestSignature", "MsgTypeReportSignature", "msgTypeByteSize"} {
+		intFact(strings.ToLower(n[:1])+n[1:], d, n)
+	}
+	intFact("defaultMaxRecvMsgSize", "fractal/connection", "defaultMaxRecvMsgSize")
+	// structural fact: in receiveRoutine the size check against maxRecvMsgSize precedes the allocation
+	fd := findFunc("fractal/connection", "Conn", "receiveRoutine")
+	if fd == nil {
+		fatal("fractal/connection: no receiveRoutine")
+	}
+	checkPos, makePos := 0, 0
+	ast.Inspect(fd, func(n ast.Node) bool {
+		switch x := n.(type) {
+		case *ast.BinaryExpr:
+			if sel, ok := x.Y.(*ast.SelectorExpr); ok && sel.Sel.Name == "maxRecvMsgSize" && x.Op.String() == ">" && checkPos == 0 {
+				checkPos = int(x.Pos())
+			}
+		case *ast.CallExpr:
+			if id, ok := x.Fun.(*ast.Ident); ok && id.Name == "make" && makePos == 0 {
+				makePos = int(x.Pos())
+			}
+		}
+		return true
+	})
+	emit("/-- in `(*Conn).receiveRoutine` the comparison `size > maxRecvMsgSize` occurs, and before the first `make` -/\ndef recvBoundCheckedBeforeAlloc : Bool := %v", checkPos != 0 && makePos != 0 && checkPos < makePos)
 }
 
 // massCoreDir locates the vendored chain library in the module cache (version from /repo/go.mod).
